@@ -52,7 +52,12 @@ type solveCfg struct {
 	fastSec   int // first attempt, first solver only
 	fullSec   int // portfolio
 	keepFiles bool
+	fastOnly  bool // stop after the single-solver attempt
+	skipFast  bool // go straight to the portfolio
 }
+
+func (c *solveCfg) fast() *solveCfg { d := *c; d.fastOnly = true; return &d }
+func (c *solveCfg) slow() *solveCfg { d := *c; d.skipFast = true; return &d }
 
 func runSolver(ctx context.Context, s solverSpec, file string, timeoutSec int) (string, string, float64) {
 	t0 := time.Now()
@@ -90,14 +95,20 @@ func solve(cfg *solveCfg, id string, script string, quant bool) Result {
 		return Result{Status: "error", Raw: "no solver"}
 	}
 	// fast attempt
-	st, raw, secs := runSolver(context.Background(), availableSolvers[0], file, cfg.fastSec)
-	res.Attempt = append(res.Attempt, fmt.Sprintf("%s:%s:%.2fs", availableSolvers[0].name, st, secs))
-	if st == "sat" || st == "unsat" {
-		res.Status, res.Solver, res.Secs, res.Raw = st, availableSolvers[0].name, secs, raw
-		if st == "sat" {
-			res.Model = parseModel(raw)
+	if !cfg.skipFast {
+		st, raw, secs := runSolver(context.Background(), availableSolvers[0], file, cfg.fastSec)
+		res.Attempt = append(res.Attempt, fmt.Sprintf("%s:%s:%.2fs", availableSolvers[0].name, st, secs))
+		if st == "sat" || st == "unsat" {
+			res.Status, res.Solver, res.Secs, res.Raw = st, availableSolvers[0].name, secs, raw
+			if st == "sat" {
+				res.Model = parseModel(raw)
+			}
+			return res
 		}
-		return res
+		if cfg.fastOnly {
+			res.Status, res.Solver, res.Secs, res.Raw = st, availableSolvers[0].name, secs, raw
+			return res
+		}
 	}
 	// portfolio
 	ctx, cancel := context.WithCancel(context.Background())
@@ -207,8 +218,16 @@ func dischargeAll(cfg *solveCfg, jr *JobResult, sem chan struct{}) {
 			continue
 		}
 		base := append([]*Term{}, e.assumes[:o.NAssume]...)
+		var extra []*Term
+		if o.Kind != "vacuity" {
+			gts := []*Term{o.Cond, o.Goal}
+			for _, p := range o.Parts {
+				gts = append(gts, p.Cond, p.Goal)
+			}
+			extra = e.goalDirectedInstances(o, gts)
+		}
 		if len(o.Parts) > 0 && o.Kind != "vacuity" {
-			dischargeParts(cfg, e, o, base, sem, &wg)
+			dischargeParts(cfg, e, o, base, extra, sem, &wg)
 			continue
 		}
 		asserts := append(base, o.Cond, e.tb.Not(o.Goal))
@@ -231,42 +250,120 @@ func dischargeAll(cfg *solveCfg, jr *JobResult, sem chan struct{}) {
 				weak = nil
 			}
 		}
-		mkScripts := func(extra *Term) (string, string) {
+		// extra: goal-directed instances of quantified hypotheses; they are
+		// weakened too (they contain the quantifier they instantiate)
+		var extraW []*Term
+		for _, x := range extra {
+			if wx, ok := e.tb.Weaken(x); ok {
+				extraW = append(extraW, wx)
+			}
+		}
+		mkScripts := func(split *Term) [4]string {
 			full := asserts
 			wk := weak
-			if extra != nil {
-				full = append(append([]*Term{}, asserts...), extra)
+			if split != nil {
+				full = append(append([]*Term{}, asserts...), split)
 				if wk != nil {
-					wk = append(append([]*Term{}, weak...), extra)
+					wk = append(append([]*Term{}, weak...), split)
 				}
 			}
-			ws := ""
+			var out [4]string
+			out[0] = e.tb.Script(full, e.inputs, logic)
+			qfTerms := full
 			if wk != nil {
-				ws = e.tb.Script(wk, e.inputs, logic)
+				out[1] = e.tb.Script(wk, e.inputs, logic)
+				qfTerms = wk
+				if len(extraW) > 0 {
+					qfTerms = append(append([]*Term{}, wk...), extraW...)
+					out[2] = e.tb.Script(qfTerms, e.inputs, logic)
+				}
+			} else if len(extra) > 0 && !quant {
+				qfTerms = append(append([]*Term{}, full...), extra...)
+				out[2] = e.tb.Script(qfTerms, e.inputs, logic)
 			}
-			return e.tb.Script(full, e.inputs, logic), ws
+			if !quant || wk != nil {
+				if s, ok := e.tb.IntAbstraction(qfTerms); ok {
+					out[3] = s
+				}
+			}
+			return out
 		}
-		run := func(id, full, wk string) Result {
-			if wk != "" {
-				r := solve(cfg, id+".qf", wk, false)
+		run := func(id string, sc [4]string) Result {
+			var att []string
+			if sc[1] != "" {
+				r := solve(cfg.fast(), id+".qf", sc[1], false)
 				if r.Status == "unsat" {
 					r.Attempt = append(r.Attempt, "quantifier-free weakening of the hypotheses")
 					return r
 				}
-				r2 := solve(cfg, id, full, true)
-				r2.Attempt = append(r.Attempt, r2.Attempt...)
-				return r2
+				att = r.Attempt
 			}
-			return solve(cfg, id, full, quant)
+			if sc[3] != "" && sc[2] == "" && sc[1] != "" {
+				r := solveLIA(cfg, id+".lia", sc[3])
+				if r.Status == "unsat" {
+					r.Attempt = append(append(att, r.Attempt...), "integer abstraction (linear arithmetic over lengths and offsets)")
+					return r
+				}
+				att = append(att, r.Attempt...)
+				sc[3] = ""
+			}
+			if sc[2] != "" {
+				r := solve(cfg.fast(), id+".inst", sc[2], false)
+				if r.Status == "unsat" {
+					r.Attempt = append(append(att, r.Attempt...), "goal-directed instances of quantified hypotheses")
+					return r
+				}
+				att = append(att, r.Attempt...)
+			}
+			qfOnly := sc[1] == "" && sc[2] == ""
+			if qfOnly {
+				// quantifier-free query: one bit-vector solver first
+				r := solve(cfg.fast(), id, sc[0], false)
+				if r.Status == "unsat" || r.Status == "sat" {
+					return r
+				}
+				att = append(att, r.Attempt...)
+			}
+			if sc[3] != "" {
+				r := solveLIA(cfg, id+".lia", sc[3])
+				if r.Status == "unsat" {
+					r.Attempt = append(append(att, r.Attempt...), "integer abstraction (linear arithmetic over lengths and offsets)")
+					return r
+				}
+				att = append(att, r.Attempt...)
+			}
+			if sc[2] != "" {
+				// the instantiated quantifier-free query once more, all solvers
+				r := solve(cfg.slow(), id+".inst", sc[2], false)
+				if r.Status == "unsat" {
+					r.Attempt = append(append(att, r.Attempt...), "goal-directed instances of quantified hypotheses")
+					return r
+				}
+				att = append(att, r.Attempt...)
+			} else if sc[1] != "" {
+				r := solve(cfg.slow(), id+".qf", sc[1], false)
+				if r.Status == "unsat" {
+					r.Attempt = append(append(att, r.Attempt...), "quantifier-free weakening of the hypotheses")
+					return r
+				}
+				att = append(att, r.Attempt...)
+			}
+			c2 := cfg
+			if qfOnly {
+				c2 = cfg.slow()
+			}
+			r2 := solve(c2, id, sc[0], quant)
+			r2.Attempt = append(att, r2.Attempt...)
+			return r2
 		}
 		if len(o.Splits) == 0 || o.Kind == "vacuity" {
-			full, wk := mkScripts(nil)
+			scr := mkScripts(nil)
 			wg.Add(1)
 			sem <- struct{}{}
 			go func() {
 				defer wg.Done()
 				defer func() { <-sem }()
-				o.Result = run(o.ID, full, wk)
+				o.Result = run(o.ID, scr)
 			}()
 			continue
 		}
@@ -275,13 +372,13 @@ func dischargeAll(cfg *solveCfg, jr *JobResult, sem chan struct{}) {
 		var pwg sync.WaitGroup
 		for i, sp := range o.Splits {
 			i := i
-			full, wk := mkScripts(sp)
+			scr := mkScripts(sp)
 			pwg.Add(1)
 			sem <- struct{}{}
 			go func() {
 				defer pwg.Done()
 				defer func() { <-sem }()
-				parts[i] = run(fmt.Sprintf("%s.case%d", o.ID, i), full, wk)
+				parts[i] = run(fmt.Sprintf("%s.case%d", o.ID, i), scr)
 			}()
 		}
 		wg.Add(1)
@@ -316,13 +413,47 @@ func dischargeAll(cfg *solveCfg, jr *JobResult, sem chan struct{}) {
 	wg.Wait()
 }
 
+// solveLIA runs the integer abstraction; only "unsat" is meaningful.
+func solveLIA(cfg *solveCfg, id, script string) Result {
+	file := filepath.Join(cfg.tmp, sanitizeFile(id)+".smt2")
+	if err := os.WriteFile(file, []byte(script), 0o644); err != nil {
+		return Result{Status: "error", Raw: err.Error()}
+	}
+	if !cfg.keepFiles {
+		defer os.Remove(file)
+	}
+	var res Result
+	for _, s := range availableSolvers {
+		if s.name == "z3" {
+			continue
+		}
+		st, raw, secs := runSolver(context.Background(), s, file, cfg.fastSec)
+		res.Attempt = append(res.Attempt, fmt.Sprintf("%s:lia:%s:%.2fs", s.name, st, secs))
+		res.Secs += secs
+		if st == "unsat" {
+			res.Status, res.Solver, res.Raw = "unsat", s.name + "(lia)", raw
+			return res
+		}
+	}
+	res.Status = "unknown"
+	return res
+}
+
 // dischargeParts decides an obligation that is a conjunction over program
 // paths (and possibly a case split): every (part, case) query must be unsat.
-func dischargeParts(cfg *solveCfg, e *Engine, o *Obligation, base []*Term, sem chan struct{}, wg *sync.WaitGroup) {
+func dischargeParts(cfg *solveCfg, e *Engine, o *Obligation, base, extra []*Term, sem chan struct{}, wg *sync.WaitGroup) {
 	type q struct {
 		id   string
 		full string
 		wk   string
+		inst string
+		lia  string
+	}
+	var extraW []*Term
+	for _, x := range extra {
+		if wx, ok := e.tb.Weaken(x); ok {
+			extraW = append(extraW, wx)
+		}
 	}
 	var qs []q
 	splits := o.Splits
@@ -339,7 +470,7 @@ func dischargeParts(cfg *solveCfg, e *Engine, o *Obligation, base []*Term, sem c
 			if sp != nil {
 				id = fmt.Sprintf("%s.case%d", id, si)
 			}
-			wk := ""
+			wk, inst := "", ""
 			if hasQuantifier(asserts) {
 				ok := true
 				var weak []*Term
@@ -353,9 +484,34 @@ func dischargeParts(cfg *solveCfg, e *Engine, o *Obligation, base []*Term, sem c
 				}
 				if ok {
 					wk = e.tb.Script(weak, e.inputs, "ALL")
+					if len(extraW) > 0 {
+						inst = e.tb.Script(append(weak, extraW...), e.inputs, "ALL")
+					}
 				}
 			}
-			qs = append(qs, q{id, e.tb.Script(asserts, e.inputs, "ALL"), wk})
+			if inst == "" && len(extra) > 0 {
+				inst = e.tb.Script(append(append([]*Term{}, asserts...), extra...), e.inputs, "ALL")
+			}
+			lia := ""
+			{
+				var qfTerms []*Term
+				ok := true
+				for _, a := range asserts {
+					wa, k := e.tb.Weaken(a)
+					if !k {
+						ok = false
+						break
+					}
+					qfTerms = append(qfTerms, wa)
+				}
+				if ok {
+					qfTerms = append(qfTerms, extraW...)
+					if s, ok2 := e.tb.IntAbstraction(qfTerms); ok2 {
+						lia = s
+					}
+				}
+			}
+			qs = append(qs, q{id, e.tb.Script(asserts, e.inputs, "ALL"), wk, inst, lia})
 		}
 	}
 	parts := make([]Result, len(qs))
@@ -368,13 +524,52 @@ func dischargeParts(cfg *solveCfg, e *Engine, o *Obligation, base []*Term, sem c
 			defer pwg.Done()
 			defer func() { <-sem }()
 			if qq.wk != "" {
-				r := solve(cfg, qq.id+".qf", qq.wk, false)
+				r := solve(cfg.fast(), qq.id+".qf", qq.wk, false)
 				if r.Status == "unsat" {
 					parts[i] = r
 					return
 				}
 			}
-			parts[i] = solve(cfg, qq.id, qq.full, true)
+			qfOnly := qq.wk == "" && qq.inst == ""
+			if qfOnly {
+				r := solve(cfg.fast(), qq.id, qq.full, false)
+				if r.Status == "unsat" || r.Status == "sat" {
+					parts[i] = r
+					return
+				}
+			}
+			if qq.inst != "" {
+				r := solve(cfg.fast(), qq.id+".inst", qq.inst, false)
+				if r.Status == "unsat" {
+					parts[i] = r
+					return
+				}
+			}
+			if qq.lia != "" {
+				r := solveLIA(cfg, qq.id+".lia", qq.lia)
+				if r.Status == "unsat" {
+					parts[i] = r
+					return
+				}
+			}
+			if qq.inst != "" {
+				r := solve(cfg.slow(), qq.id+".inst", qq.inst, false)
+				if r.Status == "unsat" {
+					parts[i] = r
+					return
+				}
+			} else if qq.wk != "" {
+				r := solve(cfg.slow(), qq.id+".qf", qq.wk, false)
+				if r.Status == "unsat" {
+					parts[i] = r
+					return
+				}
+			}
+			c2 := cfg
+			if qfOnly {
+				c2 = cfg.slow()
+			}
+			parts[i] = solve(c2, qq.id, qq.full, true)
 		}()
 	}
 	wg.Add(1)
